@@ -2,7 +2,7 @@ META = {}
 NOT_APPLICABLE_REASON = {}
 
 META["C15"] = {
-    "text": "Bounded symbolic model checking of the real scanner: from an arbitrary scanner state satisfying the stated invariant over a symbolic input suffix, one Scan() re-establishes the invariant, makes progress and returns a position inside the input, for every rune assignment within the bound (solver-decided per path). The per-token step lemma covers every position of longer inputs up to the rune bound per token.",
+    "text": "Bounded symbolic model checking of the real scanner: from an arbitrary scanner state satisfying the stated invariant over a symbolic input suffix, one Scan() re-establishes the invariant, makes progress and returns a position inside the input, for every rune assignment within the bound (solver-decided per path). The per-token step lemma covers every position of longer inputs up to the rune bound per token. P2: the real ParseSrc on every source of <= 2|3 symbolic runes returns a tree or a *parser.Error positioned inside the input, never panics. P3: parsing writes no pre-existing object (write barrier) and the same text gives the same tree. P4a: relational scanner lemma - the same suffix behind any of 5 prefixes yields the same token with the line shifted by the prefix's line count and the column unchanged. P4b: for all ordered pairs of 31 snippets the concatenation parses to the concatenated statement lists with positions shifted.",
     "design_ref": "DESIGN.md §5 C15",
     "note": "Trusted: go/ssa translation, symgo instruction semantics, z3 5.1.0. Symbolic runes are ASCII; bound = runes per scan step (quick 4, thorough 6). ParseSrc totality on whole inputs and compositionality at parser level are claimed only where the evidence lists their harnesses.",
     "technique": "symbolic execution of go/ssa + SMT (z3), inductive step lemma, native replay",
@@ -95,7 +95,7 @@ META["C01"] = {
 META["C14"] = {
     "text": "Frame (non-interference) lemma decided per step: in every instance of the C01 step lemma the tree (built, then frozen) and every object that existed after package initialisation (oneLiteral, int64Cache, nilValue, env.Packages, parser tables) are under a write barrier during RunContext; any Store/MapUpdate/delete/in-place append/reflect Set into them is a violation naming the field. Because every node kind runs with arbitrary children this is an inductive step: no evaluation writes the tree or process-wide state, hence repeated and concurrent runs of one tree on separate environments give their solo results.",
     "design_ref": "DESIGN.md §5 C14",
-    "note": "The 'all goroutine interleavings with the race detector' quantifier is discharged by this frame argument, not by exploring schedules (not applicable to the technique). Native replay compares a structural dump of the tree before and after the run.",
+    "note": "The 'all goroutine interleavings with the race detector' quantifier is discharged by this frame argument, not by exploring schedules (not applicable to the technique). F2: nothing the step hands back (value, bindings) aliases process-wide state. F3: import gives every importer its own copy of the package table. F4: the only nondeterministic primitive a goroutine-free step reaches is map iteration. Native replay compares a structural dump of the tree before and after the run, stores through every alias handed back, and re-runs the node in an equal fresh environment.",
     "technique": "symbolic execution of go/ssa with a write-barrier monitor, per-node-kind frame lemma, native replay",
 }
 
